@@ -69,7 +69,7 @@ Definition differs (c : circuit) (n : nat) : bool := negb (res_eqb (impl_run c n
 Definition w_heun := mkC dt8 false true [S1; T0] [mkEdge 0 1 (mkq 1 1) (Delay (mkq 1 2))].
 Theorem C09_refuted_heun : wf w_heun = true /\ g_delays_ge2 w_heun = true /\ g_euler w_heun = false /\
   impl_run w_heun 8 <> Ok (spec_run w_heun 8).
-Proof. repeat split; try (vm_compute; reflexivity). apply res_eqb_false_neq. vm_compute. reflexivity. Qed.
+Proof. split; [|split; [|split]]; try (vm_compute; reflexivity). apply res_eqb_false_neq. vm_compute. reflexivity. Qed.
 Print Assumptions C09_refuted_heun.
 
 (* D15: an edge without delay that shares its source variable with a delayed edge is delayed by one step *)
@@ -77,7 +77,7 @@ Definition w_sibling := mkC dt8 false false [S1; T0; T0]
   [mkEdge 0 1 (mkq 2 1) (Delay (mkq 3 8)); mkEdge 0 2 (mkq 1 1) NoKey].
 Theorem C09_refuted_sibling : wf w_sibling = true /\ g_delays_ge2 w_sibling = true /\ g_no_undelayed_sibling w_sibling = false /\
   impl_run w_sibling 6 <> Ok (spec_run w_sibling 6).
-Proof. repeat split; try (vm_compute; reflexivity). apply res_eqb_false_neq. vm_compute. reflexivity. Qed.
+Proof. split; [|split; [|split]]; try (vm_compute; reflexivity). apply res_eqb_false_neq. vm_compute. reflexivity. Qed.
 Print Assumptions C09_refuted_sibling.
 
 (* D24: vectorized, the same at the level of the merged source vector: another unit's undelayed edge is delayed *)
@@ -90,7 +90,9 @@ Theorem C09_refuted_sibling_vec : wf w_sibling_vec = true /\ g_delays_ge2 w_sibl
   impl_run (mkC dt8 false false (cnodes w_sibling_vec) (cedges w_sibling_vec)) 6 =
     Ok (spec_run (mkC dt8 false false (cnodes w_sibling_vec) (cedges w_sibling_vec)) 6).
 Proof.
-  repeat split; try (vm_compute; reflexivity). apply res_eqb_false_neq. vm_compute. reflexivity.
+  split; [vm_compute; reflexivity|]. split; [vm_compute; reflexivity|]. split; [vm_compute; reflexivity|]. split.
+  - apply res_eqb_false_neq. vm_compute. reflexivity.
+  - apply C09_partial; vm_compute; reflexivity.
 Qed.
 Print Assumptions C09_refuted_sibling_vec.
 
@@ -110,8 +112,8 @@ Print Assumptions C09_refuted_parallel.
 Definition w_none := mkC dt8 false false [S1; T0] [mkEdge 0 1 (mkq 2 1) ExplNone].
 Theorem C09_refuted_explicit_none : wf w_none = true /\ g_delays_ge2 w_none = true /\ g_no_explicit_none w_none = false /\
   impl_run w_none 11 <> Ok (spec_run w_none 11) /\
-  impl_run w_none 11 = impl_run (mkC dt8 false false [S1; T0] [mkEdge 0 1 (mkq 2 1) (Delay (mkq 1 1))]) 11.
-Proof. repeat split; try (vm_compute; reflexivity). apply res_eqb_false_neq. vm_compute. reflexivity. Qed.
+  res_eqb (impl_run w_none 11) (impl_run (mkC dt8 false false [S1; T0] [mkEdge 0 1 (mkq 2 1) (Delay (mkq 1 1))]) 11) = true.
+Proof. split; [|split; [|split; [|split]]]; try (vm_compute; reflexivity). apply res_eqb_false_neq. vm_compute. reflexivity. Qed.
 Print Assumptions C09_refuted_explicit_none.
 
 Theorem C09_full_refuted : ~ C09_full_statement.
